@@ -237,7 +237,7 @@ func (c *compiler) identity(y *Identity) error {
 		if err != nil {
 			return err
 		}
-		identity, found := m.Identities()[ident]
+		identity, found := lookupIdentity(m, ident)
 		if !found {
 			return errors.New(SchemaPath(y) + " - " + baseId + " identity not found")
 		}
@@ -311,7 +311,7 @@ func (c *compiler) compileType(y *Type, parent Leafable, isUnion bool) error {
 				if err != nil {
 					return err
 				}
-				identity, found := m.Identities()[ident]
+				identity, found := lookupIdentity(m, ident)
 				if !found {
 					return errors.New(SchemaPath(parent) + " - " + base + " identity not found")
 				}
@@ -371,6 +371,17 @@ func (c *compiler) compileType(y *Type, parent Leafable, isUnion bool) error {
 	}
 
 	return nil
+}
+
+// a submodule sees the identities of the module it belongs to without a prefix
+func lookupIdentity(m *Module, ident string) (*Identity, bool) {
+	identity, found := m.Identities()[ident]
+	if !found && m.belongsTo != nil {
+		if parent, ok := m.parent.(*Module); ok {
+			return lookupIdentity(parent, ident)
+		}
+	}
+	return identity, found
 }
 
 // a leaf that states no default or units takes those of its typedef
